@@ -47,6 +47,19 @@ package server
 //@   assert@before:provingError origin(err, "ProveInsertion|ProveDeletion")
 //@   assert@before:unexpectedError origin(err, "Marshal")
 //@   assert@return w.status == 200 ==> origin(proof, "ProveInsertion.0|ProveDeletion.0") && w.body == json.proofDocOf(deref(proof).Proof)
+// cause -> answer, in the order the causes are examined: unreadable body, undecodable body, prover error
+//@   snap@after:ReadAll readErr = res1
+//@   snap@after:Unmarshal decErr = res
+//@   snap@after:ProveInsertion proveErr = res1
+//@   snap@after:ProveDeletion proveErr = res1
+//@   let badRead = called("ReadAll") && readErr != nil
+//@   let badBody = called("Unmarshal") && decErr != nil
+//@   let badProof = (called("ProveInsertion") || called("ProveDeletion")) && proveErr != nil
+//@   assert@before:send badRead || badBody ==> deref(recv).Code == "malformed_body" && deref(recv).StatusCode == 400
+//@   assert@before:send !badRead && !badBody && badProof ==> deref(recv).Code == "proving_error" && deref(recv).StatusCode == 400
+//@   assert@return badRead || badBody ==> w.status == 400 && !called("ProveInsertion") && !called("ProveDeletion")
+//@   assert@return badProof ==> w.status == 400
+//@   assert@return r.Method == "POST" && !badRead && !badBody && !badProof && !called("unexpectedError") ==> w.status == 200
 
 // ---------------------------------------------------------------------------------------
 // C14 — shutdown ordering (safety skeleton; no schedules explored, liveness not decided)
